@@ -33,7 +33,7 @@ Inductive pstep (p : nat) : state -> state -> Prop :=
 | ps_auth i r dg s : made (conns s p) = true -> dg = sha1 (nonce (conns s p) ++ r_secret r) ->
     (async_store = false -> store i = LRow r) ->
     pstep p s (logA (AAuth p i r dg)
-                 (modc p (fun c => set_subchans (r_sub r) (set_pubchans (r_pub r) (set_ak (Some i) c))) s))
+                 (modc p (fun c => set_subchans (r_sub r) (set_pubchans (r_pub r) (set_ak (Some i) c))) (regauge p i s)))
 | ps_publish c d i r s s' : last_auth (alog s) p = Some (i, r) -> In c (r_pub r) ->
     publish p c d s = Ok s' -> pstep p s s'
 | ps_connect n s : made (conns s p) = false -> pstep p s (do_connect bname p n s)
@@ -58,7 +58,7 @@ Proof.
   - apply sub_good; assumption.
   - apply unsub_good; assumption.
   - apply lostp_good; assumption.
-  - apply auth_set_good; assumption.
+  - apply auth_set_good; try assumption. apply regauge_good. exact G.
   - destruct (publish_good store async_store p c d s i r G H H0) as (s'' & E & G'). congruence.
   - pose proof (do_connect_good bname store async_store p n s G) as X. exact X.
   - apply abort_good. exact G.
